@@ -255,7 +255,15 @@ func readUserDefinedColForRRCs(segKey string, rrcs []*sutils.RecordResultContain
 	}
 
 	maxParallelism := runtime.GOMAXPROCS(0)
-	enclosures, _ := utils.BatchProcess(rrcs, batchingFunc, batchKeyLess, operation, maxParallelism)
+	enclosures, err := utils.BatchProcess(rrcs, batchingFunc, batchKeyLess, operation, maxParallelism)
+	if err != nil {
+		// The values of the blocks that could be read are still returned, but
+		// the blocks that could not must not go missing silently.
+		log.Errorf("qid=%v, readUserDefinedColForRRCs: failed to read column %v for some blocks of segkey %v; err=%v",
+			qid, cname, segKey, err)
+		nodeRes.StoreGlobalSearchError(fmt.Sprintf("readUserDefinedColForRRCs: failed to read column %v of segkey %v",
+			cname, segKey), log.ErrorLevel, err)
+	}
 	return enclosures, nil
 }
 
